@@ -32,7 +32,7 @@ static void init_sigs(void) {
 
 /* ---- stream generation ------------------------------------------------------------------------------- */
 #define MAXS 760
-typedef struct { unsigned char b[MAXS]; size_t n; unsigned char flush_before[MAXS + 1]; int has_nl_in_string, has_block_nl, has_flush, mutated; } stream_t;
+typedef struct { unsigned char b[MAXS]; size_t n; unsigned char flush_before[MAXS + 1]; int has_nl_in_string, has_block_nl, has_flush, mutated, has_expr_nesting; } stream_t;
 
 static void put(stream_t * s, const void * d, size_t n) { if (s->n + n <= MAXS - 8) { memcpy(s->b + s->n, d, n); s->n += n; } }
 static void puts_(stream_t * s, const char * t) { put(s, t, strlen(t)); }
@@ -64,7 +64,17 @@ static void gen_unit(vh_rng_t * rng, stream_t * s) {
         case 3: puts_(s, "NUM "); puts_(s, nums[vh_below(rng, 11)]); if (vh_chance(rng, 1, 3)) { puts_(s, " , "); puts_(s, nums[vh_below(rng, 5)]); } break;
         case 4: puts_(s, vh_chance(rng, 1, 2) ? "Q?" : "q? abc"); break;
         case 5: puts_(s, "ARR 1,2,3"); if (vh_chance(rng, 1, 2)) puts_(s, ",4,5"); break;
-        case 6: puts_(s, vh_chance(rng, 1, 2) ? "EXP (1,2:3)" : "EXP (@1!2,3!4:5!6)"); break;
+        case 6:
+            if (vh_chance(rng, 1, 3)) {
+                /* what 488.2 7.7.7 also allows inside an expression: nested parentheses and string data (whose content may be a terminator) */
+                int k = 1 + (int) vh_below(rng, 3);
+                puts_(s, vh_chance(rng, 1, 2) ? "EXP (@1" : "EXP (1");
+                while (k--) { puts_(s, ","); switch (vh_below(rng, 4)) { case 0: puts_(s, "(2:4)"); break; case 1: gen_string(rng, s); break; case 2: puts_(s, "(("); gen_string(rng, s); puts_(s, "))"); break; default: puts_(s, "7"); } }
+                puts_(s, ")");
+                s->has_expr_nesting = 1;
+                break;
+            }
+            puts_(s, vh_chance(rng, 1, 2) ? "EXP (1,2:3)" : "EXP (@1!2,3!4:5!6)"); break;
         case 7: puts_(s, "SYST:CH "); gen_string(rng, s); puts_(s, ",ON"); break;
         case 8: puts_(s, vh_chance(rng, 1, 2) ? "SYST:Q2?" : ":SYSTEM:Q2?"); break;
         case 9: puts_(s, "*IDN?"); break;
@@ -246,6 +256,7 @@ static void p0_run(uint64_t idx, vh_rng_t * rng) {
     if (s.has_block_nl) vh_count("stream.terminator_inside_block", 1);
     if (s.has_flush) vh_count("stream.with_flush_calls", 1);
     if (s.mutated) vh_count("stream.mutated", 1);
+    if (s.has_expr_nesting) vh_count("stream.expression_with_nested_parentheses_or_strings", 1);
     if (s.n > 258) vh_count("stream.longer_than_258_bytes", 1);
     if (s.n > 514) vh_count("stream.longer_than_514_bytes", 1);
     if (ref.rem.len) vh_count("stream.leaves_remainder", 1);
@@ -259,6 +270,6 @@ int main(int argc, char ** argv) {
     static const vh_phase_t phases[] = { { "streams", p0_count, p0_run } };
     vh_decoy_enable(11); vh_require("decoy.messages_run_on_a_second_context"); vh_require("history.pending_units_then_overrun"); vh_require("seg.all_at_once"); vh_require("seg.single_split"); vh_require("seg.random_multiway"); vh_require("stream.terminator_inside_block");
     vh_require("stream.terminator_inside_string"); vh_require("stream.with_flush_calls"); vh_require("stream.leaves_remainder"); vh_require("stream.produces_output");
-    vh_require("stream.raises_errors"); vh_require("family.tight_buffer"); vh_require("stream.longer_than_258_bytes"); vh_require("stream.longer_than_514_bytes");
+    vh_require("stream.raises_errors"); vh_require("family.tight_buffer"); vh_require("stream.longer_than_258_bytes"); vh_require("stream.expression_with_nested_parentheses_or_strings"); vh_require("stream.longer_than_514_bytes");
     return vh_main(argc, argv, "C08", phases, 1);
 }
